@@ -189,8 +189,11 @@ _BUILTINS = ("ASCII_DIGIT", "ASCII_ALPHA", "ASCII_ALPHANUMERIC", "ASCII_HEX_DIGI
 _ALPHABET = "ab1 \nX_"
 
 
-def random_grammar(rng: random.Random):
-    """A small terminating grammar over literals and built-ins, with inputs."""
+def random_grammar(rng: random.Random, reverse_choices: bool = False):
+    """A small terminating grammar over literals and built-ins, with inputs.
+
+    With reverse_choices the same PRNG value yields the TWIN grammar: same rule names, the
+    same alternatives in every choice, in reverse order."""
     lits = ['"a"', '"b"', '"ab"', '"1"', '"_"', "'a'..'c'", '^"x"']
     n = rng.randint(2, 5)
     rules = []
@@ -210,7 +213,10 @@ def random_grammar(rng: random.Random):
         if r < 0.45:
             return "(" + " ~ ".join(expr(i, depth - 1) for _ in range(rng.randint(2, 3))) + ")"
         if r < 0.65:
-            return "(" + " | ".join(expr(i, depth - 1) for _ in range(rng.randint(2, 3))) + ")"
+            alts = [expr(i, depth - 1) for _ in range(rng.randint(2, 3))]
+            if reverse_choices:
+                alts.reverse()
+            return "(" + " | ".join(alts) + ")"
         if r < 0.75:
             return "(" + expr(i, depth - 1) + ")?"
         if r < 0.85:
